@@ -737,3 +737,74 @@ def render(obj, unglue=False, braces=False):
     return "".join(out)
 
 
+
+
+# ---------------------------------------------------------------------------
+# deterministic register sweeps: every register of every register field, one field at a time,
+# for every constructor alternative (addressing mode) of a class
+
+
+def reg_paths(cls, args, prefix=()):
+    """(path, register class) of every register leaf of a description."""
+    for i, (fa, a) in enumerate(zip(cls.syntax.formal_arguments, args)):
+        k = kind_of(fa._cls)
+        if k == "reg":
+            yield prefix + (i,), fa._cls
+        elif k == "ctor":
+            for sub in ctor_options(fa._cls):
+                if sub.__name__ == a[1]:
+                    for r in reg_paths(sub, a[2], prefix + (i, sub.__name__)):
+                        yield r
+
+
+def ctor_alternatives(cls):
+    """(argument index, constructor class) of the top-level constructor alternatives."""
+    for i, fa in enumerate(cls.syntax.formal_arguments):
+        if kind_of(fa._cls) == "ctor":
+            for sub in ctor_options(fa._cls):
+                if sub.syntax:
+                    yield i, sub
+
+
+def sweep_descs(target, cid, reg_filter=None, alternatives=None, pair_product=True):
+    """Descriptions that put every register into every register field of the class, one field at
+    a time, starting from an accepted base description -- once for the default form and once per
+    constructor alternative in `alternatives` (names; None = all).  For a constructor with exactly
+    two register fields (base + index) the full product is produced as well."""
+    cls = class_by_id(target, cid)
+    forces = [()]
+    for i, sub in ctor_alternatives(cls):
+        if alternatives is None or sub.__name__ in alternatives:
+            forces.append((i, sub.__name__))
+    seen = set()
+    for force in forces:
+        base = base_desc(target, cid, force)
+        if base is None:
+            continue
+        leaves = list(reg_paths(cls, base["args"]))
+        allowed = {}
+        for path, rcls in leaves:
+            ids = list(reg_ids(rcls)[0])
+            if reg_filter is not None:
+                ids = list(reg_filter(path, rcls, ids)) or ids
+            allowed[path] = ids
+        out = []
+        for path, rcls in leaves:
+            for rid in allowed[path]:
+                out.append(set_at(base["args"], path, ["r", rid]))
+        if pair_product:
+            groups = {}
+            for path, rcls in leaves:
+                if len(path) >= 3:
+                    groups.setdefault(path[:-1], []).append(path)
+            for g in groups.values():
+                if len(g) == 2:
+                    for ra in allowed[g[0]]:
+                        a1 = set_at(base["args"], g[0], ["r", ra])
+                        for rb in allowed[g[1]]:
+                            out.append(set_at(a1, g[1], ["r", rb]))
+        for args in out:
+            key = repr(args)
+            if key not in seen:
+                seen.add(key)
+                yield {"target": target, "cls": cid, "args": args}
